@@ -44,7 +44,13 @@ def configs(rng, tier):
     base.append(t(rng, frames=24, width=128, height=96, content="cuts", **{"cfg.logical_processors": 4, "cfg.rate_control_mode": 1,
                                                                         "cfg.target_bit_rate": 200000}))
     base.append(t(rng, frames=10, width=320, height=180, content="pan", **{"cfg.logical_processors": 16, "cfg.enc_mode": 5}))
+    # longer than the picture-control-set pools (objects are recycled) with TPL and a 4-layer hierarchy: state left on a
+    # recycled object by its previous picture (ready flags, counters) only matters here
+    base.append(t(rng, frames=100, width=176, height=144, content="pan", **{"cfg.logical_processors": 4, "cfg.hierarchical_levels": 3,
+                                                                          "cfg.intra_period_length": -1, "cfg.qp": 30}))
     if tier != "quick":
+        base.append(t(rng, frames=140, width=352, height=288, content="mix", **{"cfg.logical_processors": 4, "cfg.hierarchical_levels": 3,
+                                                                              "cfg.intra_period_length": -1}))
         for _ in range(32):
             c = cfggen.gen_case(rng, quick=True, allow_slow=False)
             c["cfg.logical_processors"] = rng.choice([2, 4, 8, 16])
